@@ -427,7 +427,7 @@ def run_known(rp, kf):
 # ------------------------------------------------------------------------------------------------
 
 THEOREMS = ["Props.C03.C03_parse_render_expr_ext", "Props.C03.C03_parse_render_expr_partial", "Props.C03.C03_refuted_cmp_rhs_primary",
-            "Props.C03.C03_refuted_like_primary"]
+            "Props.C03.C03_refuted_like_primary", "Props.C03.C03_parse_render_select_partial", "Props.C03.C03_select_refuted_bare_alias"]
 
 
 def run(tier):
@@ -437,10 +437,10 @@ def run(tier):
     try:
         with common.Lock():
             common.stage_harness()
-            ok_inst, ok_props, _, logs = common.coq_stage(rp, ["theories/Proofs/ExprParseP.vo", "theories/Proofs/ExprParseExtP.vo"], "theories/Props/C03.v", THEOREMS)
+            ok_inst, ok_props, _, logs = common.coq_stage(rp, ["theories/Proofs/ExprParseP.vo", "theories/Proofs/ExprParseExtP.vo", "theories/Proofs/StmtParseP.vo"], "theories/Props/C03.v", THEOREMS)
             if not ok_inst:
                 # the model itself must still build for the correspondence
-                ok_make, log_make = common.coq_make(["theories/Model/ExprParse.vo"])
+                ok_make, log_make = common.coq_make(["theories/Model/ExprParse.vo", "theories/Model/StmtParse.vo"])
                 if not ok_make:
                     raise common.StageError("coq-model", log_make[-2000:])
     except common.StageError as e:
@@ -456,6 +456,7 @@ def run(tier):
         items, corr_bad, depth_bad = run_correspondence(rp, tier, rng, cases)
         gen_bad = run_generator_crosscheck(rp, tier, rng, cases)
         scases, sviol = run_statements(rp, tier, rng)
+        sc = run_statements_coq(rp, tier, rng)
         run_known(rp, kf)
     except common.StageError as e:
         return common.stage_fail(rp, e)
@@ -471,6 +472,28 @@ def run(tier):
     for c in sviol[:8]:
         rp.violation({"kind": "stmt", "sql": c["sql"], "prescribed": c["want"], "observed": (c["out"].get("trees") or [None])[0],
                       "accepted": c["out"]["accepted"], "code": c["out"].get("code"), "why": c["why"]}, safe_id(c["id"]))
+    # statement level in Coq
+    rp.obligation("tie(a): model parseStatement (StmtParse.v) = real parseStatement on rendered reference statements, wider-surface statements, corrupted token lists",
+                  not sc["bad"], "%d disagreements of %d" % (len(sc["bad"]), sc["n"]))
+    rp.obligation("generator = Spec.RefStmt.render_stmt / ast_of_stmt on reference statements", not sc["gen_bad"], "%d" % len(sc["gen_bad"]))
+    rp.obligation("reference statements of Spec/RefStmt.v are inside the model (no unmodelled branch) and accepted by the real parser",
+                  not sc["ref_unmodelled"] and not sc["ref_rejected"], "%d unmodelled, %d rejected" % (len(sc["ref_unmodelled"]), len(sc["ref_rejected"])))
+    stmt_oracle_ids = {c["sql"] for c in sviol}
+    for c, r in sc["bad"][:5]:
+        o = c["out"]
+        rp.violation({"kind": "correspondence", "broken": "StmtParse.v vs parseStatement", "sql": c["sql"],
+                      "impl": {k: o.get(k) for k in ("accepted", "code", "pos", "tree", "panic")}}, "scorr_" + safe_id(c["id"]), no_input=True)
+    for c in sc["gen_bad"][:3]:
+        rp.violation({"kind": "correspondence", "broken": "python generator vs Spec/RefStmt.v", "sql": c["sql"], "term": c["term"][:2000]},
+                     "sgen_" + safe_id(c["id"]), no_input=True)
+    for c in (sc["ref_rejected"] + sc["ref_unmodelled"])[:3]:
+        o = c["out"]
+        if not o["accepted"]:
+            rp.violation({"kind": "stmt", "sql": c["sql"], "prescribed": c["want"], "observed": None, "accepted": False, "code": o.get("code"),
+                          "why": "reference statement rejected (%s)" % o.get("code")}, "sref_" + safe_id(c["id"]))
+        else:
+            rp.violation({"kind": "correspondence", "broken": "reference statement reaches an unmodelled branch of StmtParse.v", "sql": c["sql"]},
+                         "sref_" + safe_id(c["id"]), no_input=True)
     for it, r in corr_bad[:5]:
         rp.violation({"kind": "correspondence", "broken": "ExprParse.v vs parseExpression", "sql": it[1], "depth": it[2],
                       "impl": {k: it[3].get(k) for k in ("accepted", "code", "pos", "tree", "panic")}}, "corr_" + it[0], no_input=True)
@@ -480,7 +503,7 @@ def run(tier):
     for c in gen_bad[:3]:
         rp.violation({"kind": "correspondence", "broken": "python generator vs Spec/RefGrammar.v", "expr": c["e"], "rho": str(c["rho"])},
                      "gen_" + c["id"], no_input=True)
-    rp.cov["evaluations"] = len(cases) + len(items)
+    rp.cov["evaluations"] = len(cases) + len(items) + sc["n"]
     rp.cov["distinct_nontrivial"] = len({c["sql"] for c in cases if G.size(c["e"]) >= 3})
     rp.cov["rule"] = "pair cases: every (outer operator, slot, inner operator) x parenthesisation variant; random reference expressions <= 60 nodes; corrupted and soup token lists for the model-vs-code tie"
     rp.cov["samples"] = [c["sql"] for c in cases[:3]] + [c["sql"] for c in cases if c["kind"] == "random"][:3]
